@@ -3,7 +3,7 @@
    Leaves of a case are generated from (seed, n): leaf i = [seed; i/256; i mod 256], possibly overridden by updates.
    Codes: Base.Corr.code agree_model agree_spec. *)
 From Coq Require Import List NArith Bool.
-From LE Require Import Base.Corr Hash.Sha256 RMT.Root RMT.Append RMT.Proof.
+From LE Require Import Base.Corr Hash.Sha256 RMT.Root RMT.Append RMT.Proof RMT.NodeProofs RMT.ProofCompleteTop.
 Import ListNotations.
 Local Open Scope N_scope.
 
@@ -69,11 +69,8 @@ Definition check_app_buggy_pred (c : app_case) : N :=
   if ost_eqb (if pk =? 1 then Some pst else None) mpred then 0 else 1.
 
 (* ---- store view of a leaf list: hash of the node at (layer, index) ---- *)
-Definition node_at (ls : list (list N)) (layer ni : N) : option hsh :=
-  let n := N.of_nat (length ls) in
-  let start := ni * 2 ^ layer in
-  if n <=? start then None
-  else Some (mroot' (firstn (N.to_nat (N.min (2 ^ layer) (n - start))) (skipn (N.to_nat start) ls))).
+Definition node_at (ls : list (list N)) (layer ni : N) : option hsh := node_of hempty hleaf hbranch ls layer ni.
+(* [node_of] is the store view of the theorems C11_proof_complete_single_query_partial / C11_update_..._partial *)
 
 (* leaves with updates applied: (position, new value id j -> other_val) *)
 Fixpoint set_nth {A} (i : nat) (x : A) (l : list A) : list A :=
